@@ -10,8 +10,8 @@ from ..runner import Part
 PROPERTY = 'C17'
 LEVEL = 'exploration'
 RULE = ('keys: k deterministic 2048-bit keys from a seeded Miller-Rabin prime search (written as PKCS#8 PEM) + k fresh keygen() keys, every key written to disk and re-loaded through '
-        'write_public_keyfile / the signer constructors; tokens: all-zero, all-0xff, the 20 single-byte-set and 160 single-bit-set tokens, tokens with 1..19 leading zero bytes, seeded random '
-        'ones (~230 shapes); signers: CryptographySigner, PycryptodomeAuthSigner, PythonRSASigner; oracle: pure-integer RSA check s^e mod n == 00 01 FF..FF 00 || DER(SHA-1 DigestInfo) || token, '
+        'write_public_keyfile / the signer constructors; tokens: all-zero, all-0xff, the 20 single-byte-set and 160 single-bit-set tokens, tokens with 1..19 leading zero bytes, seeded random ones, and per key two tokens whose correct signature starts with a zero byte (found with the reference computation) '
+        'ones (~230 shapes); signers: CryptographySigner, PycryptodomeAuthSigner, PythonRSASigner; a history in which the key pair at one path is regenerated and re-loaded three times in one process; oracle: pure-integer RSA check s^e mod n == 00 01 FF..FF 00 || DER(SHA-1 DigestInfo) || token, '
         'cryptography\'s verifier with Prehashed(SHA1), equality of the three signers\' outputs (PKCS#1 v1.5 is deterministic), and an independent decoder of the 524-byte Android RSAPublicKey '
         '(words, n0inv*n == -1 mod 2^32, little-endian modulus, rr == 2^4096 mod n, exponent, trailing " user@host"); non-trivial = every (key, signer, token); distinct likewise')
 ASSUMPTIONS = ['RSA correctness over all keys is not a finite-state question: decided for the enumerated keys x token shapes only',
@@ -79,6 +79,23 @@ def tokens():
     return out
 
 
+def short_sig_tokens(path, want=2, tries=4000):
+    """Tokens whose correct signature starts with a zero byte (about 1 in 256): a signer that drops leading zeros
+    produces a 255-byte signature for them.  Found with the reference computation, then used as boundary inputs."""
+    from cryptography.hazmat.primitives import hashes
+    from cryptography.hazmat.primitives.asymmetric import padding, utils
+    key, _n, _e = load_numbers(path)
+    r = common.rng('c17short', os.path.basename(path))
+    out = []
+    for i in range(tries):
+        tok = r.randbytes(20)
+        if key.sign(tok, padding.PKCS1v15(), utils.Prehashed(hashes.SHA1()))[0] == 0:
+            out.append(('shortsig%d' % len(out), tok))
+            if len(out) >= want:
+                break
+    return out
+
+
 def load_numbers(path):
     from cryptography.hazmat.primitives import serialization
     with open(path, 'rb') as f:
@@ -125,7 +142,7 @@ def run_sign(params, ch):
     key, n, e = load_numbers(path)
     signer = make_signer(kind, path)
     ref = make_signer('cryptography' if kind != 'cryptography' else 'pythonrsa', path)
-    toks = tokens()[params['lo']:params['hi']]
+    toks = tokens()[params['lo']:params['hi']] + [(a, b) for a, b in params.get('extra', [])]
     viol = []
     from cryptography.hazmat.primitives import hashes
     from cryptography.hazmat.primitives.asymmetric import padding, utils
@@ -199,6 +216,36 @@ def run_blob(params, ch):
             'comment': comment[:30]}, 'trans': 1}
 
 
+def run_regen(params, ch):
+    """History: a key pair is generated at path P and loaded, then regenerated at the same P and loaded again
+    (all in one process): the second signer must sign with the key that is now on disk."""
+    from adb_shell.auth.keygen import keygen
+    base = os.path.join(init_tmp(), 'regen-%d-%s-%d' % (os.getpid(), params['signer'], params['order']))
+    os.makedirs(base, exist_ok=True)
+    path = os.path.join(base, 'adbkey')
+    viol = []
+    tok = common.rng('regen').randbytes(20)
+    em = b'\x00\x01' + b'\xff' * (256 - 3 - len(SHA1_PREFIX) - 20) + b'\x00' + SHA1_PREFIX + tok
+    sigs = []
+    for gen in range(3):
+        keygen(path)
+        _key, n, e = load_numbers(path)
+        others = [k for k in SIGNERS if k != params['signer']]
+        for kind in ([params['signer']] + others if params['order'] == 0 else others + [params['signer']]):
+            sg = make_signer(kind, path)
+            sig = sg.Sign(tok)
+            if len(sig) != 256 or pow(int.from_bytes(sig, 'big'), e, n) != int.from_bytes(em, 'big'):
+                viol.append({'msg': 'generation %d: %s loaded from %s signs with a key that is not the one on disk' % (gen, kind, os.path.basename(path))})
+            pk = sg.GetPublicKey()
+            if (pk.encode() if isinstance(pk, str) else bytes(pk)) != open(path + '.pub', 'rb').read():
+                viol.append({'msg': 'generation %d: %s.GetPublicKey() is not the public key file on disk' % (gen, kind)})
+            if kind == params['signer']:
+                sigs.append(bytes(sig))
+    if len(set(sigs)) != 3:
+        viol.append({'msg': 'three different keys produced %d distinct signatures' % len(set(sigs))})
+    return {'outcome': (params['signer'], len(viol)), 'viol': viol, 'nontrivial': (params['signer'], params['order']), 'sample': dict(params, generations=3), 'trans': 9}
+
+
 def parts(tier):
     common.import_repo()
     base = os.path.join(init_tmp(), 'keys')
@@ -217,7 +264,12 @@ def parts(tier):
     nt = len(tokens())
     step = 12
     sc = [{'key': p, 'signer': s, 'lo': lo, 'hi': min(nt, lo + step)} for p in keys for s in SIGNERS for lo in range(0, nt, step)]
+    for p in keys:
+        extra = [[a, b] for a, b in short_sig_tokens(p)]
+        sc += [{'key': p, 'signer': s, 'lo': 0, 'hi': 0, 'extra': extra} for s in SIGNERS]
     out = [Part('signatures', sc, run_sign, what='%d keys x 3 signers x %d token shapes' % (len(keys), nt), bound='%d signatures' % (len(keys) * 3 * nt), chunk=1)]
+    out.append(Part('regenerate-same-path', [{'signer': s, 'order': o} for s in SIGNERS for o in (0, 1)], run_regen, what='key pair regenerated at the same path and re-loaded, three generations',
+                    bound='3 signers x 2 load orders', min_outcomes=1, chunk=1))
     out.append(Part('public-key-blob', [{'key': p} for p in keys], run_blob, what='Android RSAPublicKey structure of every key, decoded independently', bound='%d keys' % len(keys),
                     min_outcomes=1, chunk=1))
     return out
